@@ -4,6 +4,7 @@ import BbRe.Lemmas.FilePoolRefine
 import BbRe.Lemmas.FilePoolAllocSpec
 import BbRe.Lemmas.FilePoolSeek3
 import BbRe.Lemmas.FilePoolHistory2
+import BbRe.Lemmas.FilePoolOffset
 /-!
 # C15 (file half) — independent sparse files, sectors conserved
 
@@ -452,6 +453,36 @@ theorem wellformedness_is_needed :
   refine ⟨?_, rfl⟩
   show ¬ (100 ≤ 4)
   omega
+
+/-! ## machine arithmetic of `toDeviceOffset` -/
+
+/-- **Device offsets do not wrap.**  `toDeviceOffset` as written in Go — 32-bit sector number,
+widening *before* the 64-bit multiplication — is, for every sector number `1 … 2^32-1`, every sector
+size `1 … 2^31` and every offset within the sector, exactly the natural number
+`(sector-1)*sectorSizeBytes + offsetWithinSector` that `Model/FilePool.lean` computes with. -/
+theorem device_offset_exact (sector : BitVec 32) (ss ow : BitVec 64) (hs : 1 ≤ sector.toNat)
+    (hss : ss.toNat ≤ 2 ^ 31) (how : ow.toNat < ss.toNat) :
+    (toDeviceOffset sector ss ow).toNat = (sector.toNat - 1) * ss.toNat + ow.toNat :=
+  toDeviceOffset_toNat sector ss ow hs hss how
+
+/-- **Distinct sectors occupy disjoint device ranges** (intervals `[(s-1)*ss, s*ss)`), for all
+sector numbers below 2^32 and all sector sizes up to 2^31 — devices far beyond 4 GiB included. -/
+theorem device_ranges_disjoint (s1 s2 : BitVec 32) (ss o1 o2 : BitVec 64) (h1 : 1 ≤ s1.toNat) (h2 : 1 ≤ s2.toNat)
+    (hss : ss.toNat ≤ 2 ^ 31) (ho1 : o1.toNat < ss.toNat) (ho2 : o2.toNat < ss.toNat) (hne : s1 ≠ s2) :
+    toDeviceOffset s1 ss o1 ≠ toDeviceOffset s2 ss o2 ∧
+      (s1.toNat - 1) * ss.toNat ≤ (toDeviceOffset s1 ss o1).toNat ∧
+      (toDeviceOffset s1 ss o1).toNat < s1.toNat * ss.toNat :=
+  ⟨toDeviceOffset_disjoint s1 s2 ss o1 o2 h1 h2 hss ho1 ho2 hne, toDeviceOffset_range s1 ss o1 h1 hss ho1⟩
+
+/-- The 64-bit product is needed: multiplying in 32 bits before widening maps sector `2^20+1` of a
+device with 4 KiB sectors (the first sector beyond 4 GiB) onto sector 1. -/
+theorem legacy32_multiplication_collides :
+    toDeviceOffsetLegacy32 (2 ^ 20 + 1) 4096 0 = toDeviceOffsetLegacy32 1 4096 0 ∧
+      toDeviceOffset (2 ^ 20 + 1) 4096 0 ≠ toDeviceOffset 1 4096 0 :=
+  toDeviceOffsetLegacy32_collision
+
+example : ∃ s1 s2 : BitVec 32, 1 ≤ s1.toNat ∧ 1 ≤ s2.toNat ∧ s1 ≠ s2 ∧ (4096 : BitVec 64).toNat ≤ 2 ^ 31 :=
+  ⟨2 ^ 20 + 1, 1, by decide, by decide, by decide, by decide⟩
 
 /-! ## Non-vacuity: a concrete history meeting the hypotheses used above
 
